@@ -38,7 +38,7 @@ var profiles = map[string]profile{
 	"C08": {prop: "C08", replicas: [2]int{2, 3}, steps: [2]int{10, 36}, snapshots: true, li: true, iters: true, knobs: true},
 	"C09": {prop: "C09", replicas: [2]int{1, 1}, steps: [2]int{8, 36}, rangeHeavy: true, iters: true},
 	"C10": {prop: "C10", replicas: [2]int{1, 2}, steps: [2]int{6, 24}, txnHeavy: true, emptyTxn: true},
-	"C11": {prop: "C11", replicas: [2]int{1, 2}, steps: [2]int{6, 24}, li: true, knobs: true},
+	"C11": {prop: "C11", replicas: [2]int{1, 2}, steps: [2]int{6, 24}, li: true, knobs: true, snapshots: true},
 	"C12": {prop: "C12", replicas: [2]int{1, 1}, steps: [2]int{8, 36}, adversKeys: true, minKeys: 6, rangeHeavy: true},
 }
 
